@@ -9,11 +9,24 @@
   "the runs succeed and their results are related", under the hypotheses of the
   end-to-end theorems (the duplicate policy accepts the events, the 32-bit size
   conditions, `CfgOK`: `2 ≤ events_per_temporary_file < 2³²`, `1 ≤ n_outcomes_per_job`,
-  OpenMP `#outcome labels + n_outcomes_per_job < 2³²`).
+  OpenMP `n_outcomes_per_job < 2³²` and no wrap-around of the part bounds).
+
+  Two layers for `ndl.ndl`: the `ndlModel_*` lemmas (the model without the
+  zero-event rule; kept as lemmas) and — last section — the `ndlCall_*` theorems
+  C13 states: on the CALL, with `es ≠ []` (on zero events the call raises
+  `IOError`, so e.g. "λ-homogeneous on `[]`" would assert success where the code
+  raises), `FileEvents`, `Nodup` on given labels (the model reads a repeated
+  label at its first position, Python at its last: given cues `['a','a']` the
+  model updates the first `a`, the code the last), and with the LABELS of every
+  result in the conclusion — a law read through `LW.get` alone would also be
+  satisfied by results with wrong labels.
 -/
 import PyndlProofs.Laws
 import PyndlProofs.Dict
 import PyndlProofs.NdlContinue
+import PyndlProofs.Chain
+import PyndlProofs.PermEvents
+import PyndlProofs.FileEvents
 
 set_option linter.unusedSectionVars false
 set_option linter.unusedSimpArgs false
@@ -277,5 +290,252 @@ theorem ndlModel_beta2_zero (magic version : Nat) (hm : magic < 4294967296) (hv 
     obtain ⟨_, s2, _, _⟩ := applyPolicy_sub cfg.policy e e' hpe
     exact ho e he ((s2 o).mp hoe)
   exact congrFun (rwLearn_beta2_zero_absent (fun _ => alpha) β₁ lam _ es' o habs) c
+
+/-! ## `ndl.ndl` as CALLED: the laws with labels -/
+
+/-- the labels of whatever the CALL returns: from scratch the names in order of
+    first occurrence, with `weights=w` the given labels followed by the new names -/
+theorem ndlCall_labels (magic version : Nat) (cfg : NdlCfg) (alpha β₁ β₂ lam : R) (W0 : Option (LW R))
+    (es : List (Event String String)) (r : LW R) (n : Nat)
+    (h : ndlCall magic version cfg alpha β₁ β₂ lam W0 es = .ok (r, n)) :
+    r.cues = (match W0 with | none => (countNames es).1 | some w => mergedCues w es) ∧
+    r.outcomes = (match W0 with | none => (countNames es).2 | some w => mergedOutcomes w es) := by
+  have := ndlModel_labels magic version cfg alpha β₁ β₂ lam W0 es r n (ndlCall_ok _ _ _ _ _ _ _ _ _ _ h)
+  cases W0 <;> exact this
+
+theorem countNames_rename (f g : String → String) (hf : Function.Injective f) (hg : Function.Injective g)
+    (es : List (Event String String)) :
+    countNames (es.map (fun e => ⟨e.cues.map f, e.outcomes.map g⟩))
+      = ((countNames es).1.map f, (countNames es).2.map g) := by
+  unfold countNames
+  have h1 : ∀ es : List (Event String String),
+      (es.map (fun e => (⟨e.cues.map f, e.outcomes.map g⟩ : Event String String))).flatMap (·.cues)
+      = (es.flatMap (·.cues)).map f := by
+    intro es
+    induction es with
+    | nil => rfl
+    | cons e es ih => simp only [List.map_cons, List.flatMap_cons, List.map_append, ih]
+  have h2 : ∀ es : List (Event String String),
+      (es.map (fun e => (⟨e.cues.map f, e.outcomes.map g⟩ : Event String String))).flatMap (·.outcomes)
+      = (es.flatMap (·.outcomes)).map g := by
+    intro es
+    induction es with
+    | nil => rfl
+    | cons e es ih => simp only [List.map_cons, List.flatMap_cons, List.map_append, ih]
+  rw [h1 es, h2 es, dedupKeepFirst_map_injOn f _ (fun a _ b _ h => hf h),
+    dedupKeepFirst_map_injOn g _ (fun a _ b _ h => hg h)]
+
+/-- **row locality, the call** -/
+theorem ndlCall_row_depends_only (magic version : Nat) (hm : magic < 4294967296) (hv : version < 4294967296)
+    (cfg₁ cfg₂ : NdlCfg) (alpha β₁ β₂ lam : R)
+    (es₁ es₂ es₁' es₂' : List (Event String String)) (o : String) (hne₁ : es₁ ≠ []) (hne₂ : es₂ ≠ [])
+    (hcfg₁ : CfgOK cfg₁ (countNames es₁).2.length) (hcfg₂ : CfgOK cfg₂ (countNames es₂).2.length)
+    (hp₁ : applyPolicyAll cfg₁.policy es₁ = some es₁') (hp₂ : applyPolicyAll cfg₂.policy es₂ = some es₂')
+    (hfit₁ : Fits32 es₁) (hfit₂ : Fits32 es₂)
+    (hview : es₁'.map (fun e => (e.cues, decide (o ∈ e.outcomes)))
+      = es₂'.map (fun e => (e.cues, decide (o ∈ e.outcomes)))) :
+    ∃ a b, ndlCall magic version cfg₁ alpha β₁ β₂ lam none es₁ = .ok (a, es₁.length) ∧
+      ndlCall magic version cfg₂ alpha β₁ β₂ lam none es₂ = .ok (b, es₂.length) ∧
+      a.cues = (countNames es₁).1 ∧ a.outcomes = (countNames es₁).2 ∧
+      b.cues = (countNames es₂).1 ∧ b.outcomes = (countNames es₂).2 ∧
+      ∀ c, a.get o c = b.get o c := by
+  obtain ⟨a, b, a1, b1, h⟩ := ndlModel_row_depends_only magic version hm hv cfg₁ cfg₂ alpha β₁ β₂ lam
+    es₁ es₂ es₁' es₂' o hcfg₁ hcfg₂ hp₁ hp₂ hfit₁ hfit₂ hview
+  rw [← ndlCall_nonempty _ _ _ _ _ _ _ _ _ hne₁] at a1
+  rw [← ndlCall_nonempty _ _ _ _ _ _ _ _ _ hne₂] at b1
+  obtain ⟨la, la'⟩ := ndlCall_labels _ _ _ _ _ _ _ _ _ _ _ a1
+  obtain ⟨lb, lb'⟩ := ndlCall_labels _ _ _ _ _ _ _ _ _ _ _ b1
+  exact ⟨a, b, a1, b1, la, la', lb, lb', h⟩
+
+/-- **renaming equivariance, the call**: the labels of the second run are the
+    renamed labels of the first, in the same order -/
+theorem ndlCall_rename_equivariant (magic version : Nat) (hm : magic < 4294967296) (hv : version < 4294967296)
+    (cfg : NdlCfg) (alpha β₁ β₂ lam : R)
+    (f g : String → String) (hf : Function.Injective f) (hg : Function.Injective g)
+    (es es' : List (Event String String)) (hne : es ≠ []) (hp : applyPolicyAll cfg.policy es = some es')
+    (hcfg : CfgOK cfg (countNames es).2.length) (hfit : Fits32 es) :
+    ∃ a b, ndlCall magic version cfg alpha β₁ β₂ lam none es = .ok (a, es.length) ∧
+      ndlCall magic version cfg alpha β₁ β₂ lam none (es.map (fun e => ⟨e.cues.map f, e.outcomes.map g⟩))
+        = .ok (b, es.length) ∧
+      a.cues = (countNames es).1 ∧ a.outcomes = (countNames es).2 ∧
+      b.cues = a.cues.map f ∧ b.outcomes = a.outcomes.map g ∧
+      ∀ o c, b.get (g o) (f c) = a.get o c := by
+  have hcn := countNames_rename f g hf hg es
+  have hcfg' : CfgOK cfg (countNames (es.map (fun e => ⟨e.cues.map f, e.outcomes.map g⟩))).2.length := by
+    rw [hcn]; simpa using hcfg
+  have hfit' : Fits32 (es.map (fun e => (⟨e.cues.map f, e.outcomes.map g⟩ : Event String String))) := by
+    refine ⟨by simpa using hfit.nEvents, by rw [hcn]; simpa using hfit.nCues,
+      by rw [hcn]; simpa using hfit.nOuts, ?_⟩
+    intro e he
+    obtain ⟨e0, he0, rfl⟩ := List.mem_map.mp he
+    simpa using hfit.perEvent e0 he0
+  obtain ⟨a, b, a1, b1, h⟩ := ndlModel_rename_equivariant magic version hm hv cfg alpha β₁ β₂ lam f g hf hg
+    es es' hp hcfg hcfg' hfit hfit'
+  rw [← ndlCall_nonempty _ _ _ _ _ _ _ _ _ hne] at a1
+  rw [← ndlCall_nonempty _ _ _ _ _ _ _ _ _ (by simpa using hne)] at b1
+  obtain ⟨la, la'⟩ := ndlCall_labels _ _ _ _ _ _ _ _ _ _ _ a1
+  obtain ⟨lb, lb'⟩ := ndlCall_labels _ _ _ _ _ _ _ _ _ _ _ b1
+  simp only at la la' lb lb'
+  refine ⟨a, b, a1, b1, la, la', ?_, ?_, h⟩
+  · rw [lb, hcn, la]
+  · rw [lb', hcn, la']
+
+/-- **λ-homogeneity from zero, the call**: same labels in both runs -/
+theorem ndlCall_lambda_homogeneous (magic version : Nat) (hm : magic < 4294967296) (hv : version < 4294967296)
+    (cfg : NdlCfg) (alpha β₁ β₂ lam k : R)
+    (es es' : List (Event String String)) (hne : es ≠ []) (hcfg : CfgOK cfg (countNames es).2.length)
+    (hp : applyPolicyAll cfg.policy es = some es') (hfit : Fits32 es) :
+    ∃ a b, ndlCall magic version cfg alpha β₁ β₂ (k * lam) none es = .ok (a, es.length) ∧
+      ndlCall magic version cfg alpha β₁ β₂ lam none es = .ok (b, es.length) ∧
+      a.cues = (countNames es).1 ∧ a.outcomes = (countNames es).2 ∧ b.cues = a.cues ∧ b.outcomes = a.outcomes ∧
+      ∀ o c, a.get o c = k * b.get o c := by
+  obtain ⟨a, b, a1, b1, h⟩ := ndlModel_lambda_homogeneous magic version hm hv cfg alpha β₁ β₂ lam k es es' hcfg hp hfit
+  rw [← ndlCall_nonempty _ _ _ _ _ _ _ _ _ hne] at a1 b1
+  obtain ⟨la, la'⟩ := ndlCall_labels _ _ _ _ _ _ _ _ _ _ _ a1
+  obtain ⟨lb, lb'⟩ := ndlCall_labels _ _ _ _ _ _ _ _ _ _ _ b1
+  simp only at la la' lb lb'
+  exact ⟨a, b, a1, b1, la, la', by rw [lb, la], by rw [lb', la'], h⟩
+
+/-- **affine in the initial weights, the call**: each result is labelled with its
+    own given labels followed by the new names -/
+theorem ndlCall_affine (magic version : Nat) (hm : magic < 4294967296) (hv : version < 4294967296)
+    (cfg : NdlCfg) (alpha β₁ β₂ lam : R)
+    (w v s : LW R) (hs : ∀ o c, s.get o c = w.get o c + v.get o c)
+    (es es' : List (Event String String)) (hne : es ≠ []) (hp : applyPolicyAll cfg.policy es = some es')
+    (hcw : CfgOK cfg (mergedOutcomes w es).length) (hcv : CfgOK cfg (mergedOutcomes v es).length)
+    (hcs : CfgOK cfg (mergedOutcomes s es).length)
+    (fw : Fits32With w es) (fv : Fits32With v es) (fs : Fits32With s es) :
+    ∃ rs rw rv, ndlCall magic version cfg alpha β₁ β₂ lam (some s) es = .ok (rs, es.length) ∧
+      ndlCall magic version cfg alpha β₁ β₂ lam (some w) es = .ok (rw, es.length) ∧
+      ndlCall magic version cfg alpha β₁ β₂ 0 (some v) es = .ok (rv, es.length) ∧
+      (rs.cues = mergedCues s es ∧ rs.outcomes = mergedOutcomes s es) ∧
+      (rw.cues = mergedCues w es ∧ rw.outcomes = mergedOutcomes w es) ∧
+      (rv.cues = mergedCues v es ∧ rv.outcomes = mergedOutcomes v es) ∧
+      ∀ o c, rs.get o c = rw.get o c + rv.get o c := by
+  obtain ⟨rs, rw', rv, s1, w1, v1, h⟩ := ndlModel_affine magic version hm hv cfg alpha β₁ β₂ lam w v s hs es es' hp
+    hcw hcv hcs fw fv fs
+  rw [← ndlCall_nonempty _ _ _ _ _ _ _ _ _ hne] at s1 w1 v1
+  exact ⟨rs, rw', rv, s1, w1, v1, ndlCall_labels _ _ _ _ _ _ _ _ _ _ _ s1, ndlCall_labels _ _ _ _ _ _ _ _ _ _ _ w1,
+    ndlCall_labels _ _ _ _ _ _ _ _ _ _ _ v1, h⟩
+
+/-- **α = 0, the call**: the given weights come back, under the merged labels -/
+theorem ndlCall_alpha_zero (magic version : Nat) (hm : magic < 4294967296) (hv : version < 4294967296)
+    (cfg : NdlCfg) (β₁ β₂ lam : R)
+    (w : LW R) (es es' : List (Event String String)) (hne : es ≠ [])
+    (hcfg : CfgOK cfg (mergedOutcomes w es).length)
+    (hp : applyPolicyAll cfg.policy es = some es') (hfit : Fits32With w es) :
+    ∃ r, ndlCall magic version cfg 0 β₁ β₂ lam (some w) es = .ok (r, es.length) ∧
+      r.cues = mergedCues w es ∧ r.outcomes = mergedOutcomes w es ∧
+      ∀ o c, r.get o c = w.get o c := by
+  obtain ⟨r, h1, h2⟩ := ndlModel_alpha_zero magic version hm hv cfg β₁ β₂ lam w es es' hcfg hp hfit
+  rw [← ndlCall_nonempty _ _ _ _ _ _ _ _ _ hne] at h1
+  obtain ⟨l1, l2⟩ := ndlCall_labels _ _ _ _ _ _ _ _ _ _ _ h1
+  exact ⟨r, h1, l1, l2, h2⟩
+
+/-- **β₂ = 0, the call**: the row of an outcome that occurs in no event comes back
+    unchanged -/
+theorem ndlCall_beta2_zero (magic version : Nat) (hm : magic < 4294967296) (hv : version < 4294967296)
+    (cfg : NdlCfg) (alpha β₁ lam : R)
+    (w : LW R) (es es' : List (Event String String)) (hne : es ≠ [])
+    (hcfg : CfgOK cfg (mergedOutcomes w es).length)
+    (hp : applyPolicyAll cfg.policy es = some es')
+    (hfit : Fits32With w es) (o : String) (ho : ∀ e ∈ es, o ∉ e.outcomes) :
+    ∃ r, ndlCall magic version cfg alpha β₁ 0 lam (some w) es = .ok (r, es.length) ∧
+      r.cues = mergedCues w es ∧ r.outcomes = mergedOutcomes w es ∧
+      ∀ c, r.get o c = w.get o c := by
+  obtain ⟨r, h1, h2⟩ := ndlModel_beta2_zero magic version hm hv cfg alpha β₁ lam w es es' hcfg hp hfit o ho
+  rw [← ndlCall_nonempty _ _ _ _ _ _ _ _ _ hne] at h1
+  obtain ⟨l1, l2⟩ := ndlCall_labels _ _ _ _ _ _ _ _ _ _ _ h1
+  exact ⟨r, h1, l1, l2, h2⟩
+
+theorem applyPolicyAll_filter {ι κ : Type} [DecidableEq ι] [DecidableEq κ] (p : DupPolicy) (q : Event ι κ → Bool)
+    (q' : Event ι κ → Bool) (hq : ∀ e e', applyPolicy p e = some e' → q' e' = q e)
+    (es es' : List (Event ι κ)) (hp : applyPolicyAll p es = some es') :
+    applyPolicyAll p (es.filter q) = some (es'.filter q') := by
+  induction es generalizing es' with
+  | nil => simp only [applyPolicyAll, Option.some.injEq] at hp; subst hp; rfl
+  | cons e es ih =>
+    unfold applyPolicyAll at hp
+    cases he : applyPolicy p e with
+    | none => rw [he] at hp; cases hp
+    | some e' =>
+      rw [he] at hp
+      simp only at hp
+      cases hr : applyPolicyAll p es with
+      | none => rw [hr] at hp; cases hp
+      | some r =>
+        rw [hr] at hp
+        simp only [Option.some.injEq] at hp
+        subst hp
+        have hqe := hq e e' he
+        by_cases hqv : q e = true
+        · rw [List.filter_cons_of_pos hqv, List.filter_cons_of_pos (by rw [hqe]; exact hqv)]
+          simp only [applyPolicyAll, he, ih r hr]
+        · rw [List.filter_cons_of_neg hqv, List.filter_cons_of_neg (by rw [hqe]; exact hqv)]
+          exact ih r hr
+
+/-- **β₂ = 0, sequence form, the call**: continuing from `w` on the whole file and on
+    the file with all events NOT containing outcome `o` removed gives the same row
+    `o` (the second call needs its own legal arguments: the filtered file must
+    still have an event, else it raises `IOError`) -/
+theorem ndlCall_beta2_zero_filter (magic version : Nat) (hm : magic < 4294967296) (hv : version < 4294967296)
+    (cfg : NdlCfg) (alpha β₁ lam : R)
+    (w : LW R) (es es' : List (Event String String)) (o : String)
+    (hne : es.filter (fun e => decide (o ∈ e.outcomes)) ≠ [])
+    (hcfg : CfgOK cfg (mergedOutcomes w es).length)
+    (hcfgF : CfgOK cfg (mergedOutcomes w (es.filter (fun e => decide (o ∈ e.outcomes)))).length)
+    (hp : applyPolicyAll cfg.policy es = some es')
+    (hfit : Fits32With w es) (hfitF : Fits32With w (es.filter (fun e => decide (o ∈ e.outcomes)))) :
+    ∃ r rF, ndlCall magic version cfg alpha β₁ 0 lam (some w) es = .ok (r, es.length) ∧
+      ndlCall magic version cfg alpha β₁ 0 lam (some w) (es.filter (fun e => decide (o ∈ e.outcomes)))
+        = .ok (rF, (es.filter (fun e => decide (o ∈ e.outcomes))).length) ∧
+      r.cues = mergedCues w es ∧ r.outcomes = mergedOutcomes w es ∧
+      rF.cues = mergedCues w (es.filter (fun e => decide (o ∈ e.outcomes))) ∧
+      rF.outcomes = mergedOutcomes w (es.filter (fun e => decide (o ∈ e.outcomes))) ∧
+      ∀ c, r.get o c = rF.get o c := by
+  have hne' : es ≠ [] := by
+    intro h; apply hne; rw [h]; rfl
+  have hpF : applyPolicyAll cfg.policy (es.filter (fun e => decide (o ∈ e.outcomes)))
+      = some (es'.filter (fun e => decide (o ∈ e.outcomes))) := by
+    apply applyPolicyAll_filter cfg.policy _ _ _ es es' hp
+    intro e e' he
+    obtain ⟨_, s2, _, _⟩ := applyPolicy_sub cfg.policy e e' he
+    exact decide_eq_decide.mpr (s2 o)
+  obtain ⟨r, h1, h2⟩ := ndlCall_continue_eq_spec magic version hm hv cfg alpha β₁ 0 lam w es es' hne' hcfg hp hfit
+  obtain ⟨rF, f1, f2⟩ := ndlCall_continue_eq_spec magic version hm hv cfg alpha β₁ 0 lam w _ _ hne hcfgF hpF hfitF
+  obtain ⟨l1, l2⟩ := ndlCall_labels _ _ _ _ _ _ _ _ _ _ _ h1
+  obtain ⟨m1, m2⟩ := ndlCall_labels _ _ _ _ _ _ _ _ _ _ _ f1
+  refine ⟨r, rF, h1, f1, l1, l2, m1, m2, fun c => ?_⟩
+  rw [h2, f2]
+  exact congrFun (rwLearn_beta2_zero_filter (fun _ => alpha) β₁ lam _ es' o) c
+
+/-- **the order of cues and of outcomes inside the events is irrelevant, the call**
+    (`cue_perm`, `event_perm`, `events_perm` lifted): two event files that agree
+    event by event up to the order inside the events (`EventsPerm`) give, with the
+    same arguments, results with the same labels up to order and the same weight at
+    every pair of names.  All hypotheses are on the first file. -/
+theorem ndlCall_events_perm (magic version : Nat) (hm : magic < 4294967296) (hv : version < 4294967296)
+    (cfg : NdlCfg) (alpha β₁ β₂ lam : R) (es₁ es₂ es₁' : List (Event String String))
+    (h : EventsPerm es₁ es₂) (hne : es₁ ≠ [])
+    (hcfg : CfgOK cfg (countNames es₁).2.length)
+    (hp : applyPolicyAll cfg.policy es₁ = some es₁') (hfit : Fits32 es₁) :
+    ∃ a b, ndlCall magic version cfg alpha β₁ β₂ lam none es₁ = .ok (a, es₁.length) ∧
+      ndlCall magic version cfg alpha β₁ β₂ lam none es₂ = .ok (b, es₂.length) ∧
+      a.cues = (countNames es₁).1 ∧ a.outcomes = (countNames es₁).2 ∧
+      b.cues = (countNames es₂).1 ∧ b.outcomes = (countNames es₂).2 ∧
+      a.cues ~ b.cues ∧ a.outcomes ~ b.outcomes ∧
+      ∀ o c, a.get o c = b.get o c := by
+  obtain ⟨es₂', hp₂, hperm'⟩ := applyPolicyAll_perm_some cfg.policy es₁ es₂ es₁' h hp
+  obtain ⟨pc, po⟩ := countNames_perm h
+  have hne₂ : es₂ ≠ [] := by
+    intro h2; apply hne; have := h.length_eq; rw [h2] at this; exact List.length_eq_zero_iff.mp this
+  obtain ⟨a, a1, a2⟩ := ndlCall_eq_spec magic version hm hv cfg alpha β₁ β₂ lam es₁ es₁' hne hcfg hp hfit
+  obtain ⟨b, b1, b2⟩ := ndlCall_eq_spec magic version hm hv cfg alpha β₁ β₂ lam es₂ es₂' hne₂
+    (by rw [← po.length_eq]; exact hcfg) hp₂ (fits32_perm h hfit)
+  obtain ⟨la, la'⟩ := ndlCall_labels _ _ _ _ _ _ _ _ _ _ _ a1
+  obtain ⟨lb, lb'⟩ := ndlCall_labels _ _ _ _ _ _ _ _ _ _ _ b1
+  simp only at la la' lb lb'
+  refine ⟨a, b, a1, b1, la, la', lb, lb', by rw [la, lb]; exact pc, by rw [la', lb']; exact po, fun o c => ?_⟩
+  rw [a2, b2, rwLearn_perm_events (fun _ => alpha) β₁ β₂ lam _ es₁' es₂' hperm']
 
 end Pyndl
